@@ -35,6 +35,13 @@ CLAIMED["C18"] = (
     "DESIGN.md §2 E-PURITY, §3 C18",
 )
 
+CLAIMED["C04"] = (
+    "ast rules: annotation-typed protocol check of every loop over the scenario's obstacle collections, getter/setter attribute agreement, canonicalised argument-role rules at the placement and heading sites, guard implication over linear integer forms (t, initial time step, list length) for the time-step dispatch and the trajectory index, derived role<->registry table for the scenario-level filters",
+    "Decides the structural, necessary part: attributes used on elements of Scenario.obstacles/... exist in every class the collection may hold (or are guarded); a setter stores what its getter reads (129 pairs); the exact occupancy is shape.rotate_translate_local(state.position, state.orientation) and only when neither position nor orientation is a set; headings are atan2(velocity_y, velocity); the initial occupancy and every predicted occupancy are computed from, and stamped with, the state they belong to; static/environment occupancies ignore the time; DynamicObstacle answers the initial data exactly at the initial step, delegates with the same time step only for later steps with a prediction and otherwise None; occupancy lookup returns only a time-step match; the trajectory index is t - initial under guards that imply 0 <= index < len; scenario-level queries ask the per-obstacle answer at the queried step, pair ids and answers of the same element, and iterate the registry of the requested role. Not decided: the enclosing-rectangle formula for uncertain states, numeric values, that state i of a trajectory carries time step initial+i.",
+    "Trusts annotations of the collection getters, constructor-established roles, and the naming of the per-obstacle query methods.",
+    "DESIGN.md §3 C04",
+)
+
 CLAIMED["C09"] = (
     "ast pairing analysis of Scenario: id paths reserved per add_objects branch vs released per removal form (single/list), containment guards by syntax-directed dominance, ownership (who may drop / touch _id_set), atomic reservation, counter monotonicity",
     "Per-operation invariant argument that covers every history: each add branch reserves the id paths of the object it stores in one all-or-nothing step before storing; each removal form releases exactly those paths and only under a containment guard; only designated functions drop objects or touch the id pool; replacing the network releases the old ids; the counter only grows and generate_object_id folds in max(_id_set). Decided for all 9 object kinds and 5 removal functions.",
